@@ -3,6 +3,7 @@ from pyvc.run import Prop
 from pyvc.contracts import REGISTRY
 import contracts  # noqa
 from contracts.c05 import EVAL, CAREFUL, FMT, known_client_sites, site_obligations
+from contracts.frames import write_sites
 from native import c05 as native_c05
 
 M = 'DocumentTemplate._DocumentTemplate'
@@ -30,8 +31,9 @@ def _bounded(tier):
 PROP = Prop(
     'C05',
     contracts=[REGISTRY[k] for k in EVAL + CAREFUL + FMT] + [REGISTRY[ID], REGISTRY[WITH], REGISTRY[WOB], REGISTRY[WB]],
-    claims=['*::C05.*', '*C02.C05.*', 'C05.site.*', WOB + '::cut_item.C10.guarded_element_is_item_at_index', WB + '::cut_item.C10.guarded_element_is_item_at_index'],
-    structural=[site_obligations],
+    claims=['*::C05.*', '*C02.C05.*', 'C05.site.*', 'frame.write.DT_Util.Eval.*', WOB + '::cut_item.C10.guarded_element_is_item_at_index', WB + '::cut_item.C10.guarded_element_is_item_at_index'],
+    # the choice restricted / unrestricted code is made per rendering: it must not be parked on the shared expression object
+    structural=[site_obligations, write_sites],
     natives=_natives(),
     native_default=native_c05.native_for,
     bounded=[_bounded],
